@@ -349,4 +349,35 @@ func c12(c *ctx) {
 		}
 	}
 	_ = fmt.Sprint
+
+	// ------------------------------------------------------------------ R6
+	r.Rule("R6", "FLOW", "stake-changing primitives work on a record read for that operation: the *Validator handed to SlashValidator, UpdateValidatorStake, DeleteValidator, SetValidatorUnstaking, SetValidatorPaused/Unpaused is the result of a state read (GetValidator, an iterator's unmarshalValidator) or the caller's own parameter — never a copy remembered in a local map or slice across operations (a remembered struct goes stale when an earlier operation deletes or rewrites the record)", 6)
+	nSites := 0
+	for _, spec := range []struct {
+		fn  string
+		arg int
+	}{{"fsm.(*StateMachine).SlashValidator", 0}, {"fsm.(*StateMachine).UpdateValidatorStake", 0}, {"fsm.(*StateMachine).DeleteValidator", 0},
+		{"fsm.(*StateMachine).SetValidatorUnstaking", 1}, {"fsm.(*StateMachine).SetValidatorPaused", 1}, {"fsm.(*StateMachine).SetValidatorUnpaused", 1}} {
+		target := c.fnQuiet(spec.fn)
+		if target == nil {
+			continue
+		}
+		for _, site := range c.p.callSitesOf(target) {
+			if !inCanopy(site.Caller) || isTestFile(c.p, site.Site.Pos()) {
+				continue
+			}
+			nSites++
+			pth := c.p.path(stripLift(argOf(site.Site, spec.arg)))
+			remembered := strings.Contains(pth, "makemap[") || strings.Contains(pth, "make[][") || strings.Contains(pth, "local:")
+			for _, alt := range splitPhi(pth) {
+				if strings.HasPrefix(alt, "makemap") || strings.HasPrefix(alt, "make[]") {
+					remembered = true
+				}
+			}
+			r.Check(!remembered, "R6/"+fnName(target)+"/record-source/"+fnName(enclosing(site.Caller)), c.p.Pos(site.Site.Pos()), "record = "+pth,
+				fnName(enclosing(site.Caller))+" hands "+fnName(target)+" the record "+pth+", which can come from a local map/slice filled by an earlier iteration: after that iteration deleted or rewrote the validator the remembered struct is stale and the tallies are adjusted a second time")
+		}
+	}
+	r.Check(nSites >= 6, "R6/sites", "?", fmt.Sprintf("%d call sites examined", nSites), fmt.Sprintf("only %d call sites of the stake-changing primitives found", nSites))
+
 }
